@@ -387,6 +387,37 @@ pub fn generate(tier: Tier, rng: &mut Rng) -> Vec<Case> {
             }
         }
     }
+    // consecutive elements that are equal under `==` but of different kinds (1, 1u, 1.0), or
+    // repeated outright, with bodies whose outcome depends on the kind: every element is bound
+    // afresh, whatever the previous one was
+    for l in ["[1, 1u]", "[1u, 1]", "[1, 1.0, 1u]", "[2u, 2, 2.0, 3]", "[0, 0.0]", "[0.0, 0, 0u]", "[[1], [1.0]]", "[[1u], [1], [1]]", "[1, 1, 1u, 1u]", "[-0.0, 0.0, 0]", "[{1: 2}, {1u: 2}]", "[1, 1u, 2, 2u, 2.0]", "['a', 'a', b'a']"] {
+        for body in [
+            "map(x, x + 1)", "map(x, x + 1u)", "map(x, x * 1.5)", "filter(x, x >= 2)", "map(x, [x])", "all(x, x + 1 > 0)", "exists(x, x + 1u > 5u)", "exists_one(x, x / 2 == 0)", "map(x, string(x))", "map(x, x == 1, x)",
+            "map(x, t(x))", "filter(x, t(x) == 1)", "map(l, l.map(x, x * x))", "map(x, 1 / x)", "map(x, x - 1u)", "filter(x, x + 0 == x)",
+        ] {
+            if body.starts_with("map(l") != l.starts_with("[[") {
+                continue;
+            }
+            push_case(&mut out, &spec, format!("{l}.{body}"), None, vec!["equal-neighbours-of-different-kinds"]);
+        }
+    }
+    // exists_one over ranges with several matches followed by further elements, some of which fail
+    // or are logged: every element is visited, whatever the count so far
+    for l in ["[1, 2, 3, 4, 0, 5]", "[2, 2, 2, 0]", "[5, 6, 7, 8, 9]", "[0, 3, 3, 0, 3]", "{1: 0, 2: 0, 3: 0}", "[1, 2, 3, 4, 5, 6, 7, 8]"] {
+        for m in ["exists_one", "existsOne"] {
+            for body in ["t(x) > 1", "10 / x > 1", "x > 1 && t(x) > 0", "x > 0", "t(x) == 2 || 6 / x > 0"] {
+                let mut tags = vec!["exists-one-many-matches"];
+                if l.starts_with('{') {
+                    tags.push("unordered");
+                    if body.contains('/') {
+                        continue;
+                    }
+                }
+                push_case(&mut out, &spec, format!("{l}.{m}(x, {body})"), None, tags);
+                push_case(&mut out, &spec, format!("[1, 2].map(y, {l}.{m}(x, {body}))"), None, if l.starts_with('{') { vec!["exists-one-many-matches", "unordered"] } else { vec!["exists-one-many-matches"] });
+            }
+        }
+    }
     // the macros need nothing from the context: against `Context::empty()` (no function registered
     // at all) every macro over pure bodies computes the same fold
     {
